@@ -76,6 +76,7 @@ func c11Extra(c *ev.Ctx) {
 		c.Nontrivial(ev.Hash("over", fmt.Sprint(ws)))
 	})
 	c.Parallel(c.Pick(20000, 400000), 0, func(i int) { c12HandMadeRLP(c, c.Rand("handmade", i), i) }) // sets that come out of the decoder
+	c.Parallel(c.Pick(10000, 200000), 0, func(i int) { c12Aliasing(c, c.Rand("alias11", i), i) })     // ... also into a destination that already held a set; total and quorum of every set involved are re-derived
 	n2 := c.Pick(20000, 400000)
 	c.Parallel(n2, 0, func(i int) {
 		r := c.Rand("reuse", i)
